@@ -32,7 +32,6 @@ def _copy_attr_spec(attr_spec: Attr) -> Attr:
     return new
 
 
-@dataclass_transform()
 def _check_object_new_arguments(cls: type):
     """
     `object.__new__` accepts (and ignores) constructor arguments only for
@@ -68,6 +67,7 @@ def _signature_without_new(spec_cls: type) -> inspect.Signature:
     return inspect.signature(spec_cls.__init__)
 
 
+@dataclass_transform()
 class spec_class:
     """
     A class decorator that converts an ordinary class into a spec-class.
